@@ -5,7 +5,7 @@
    rows.  all48 = the 48 signed permutations of three axes (C05_all48_complete). *)
 From Coq Require Import ZArith List Bool Lia.
 From NV Require Import Base.PySlice C06.Model C06.Lemmas
-  C05.Model C05.LemmasS C05.Orient48 C05.OrientBox C05.Consist C05.Greedy C05.Canon C05.Lemmas C05.Compose.
+  C05.Model C05.LemmasS C05.Orient48 C05.OrientBox C05.Consist C05.Greedy C05.Canon C05.Lemmas C05.Compose C05.Bridge.
 Import ListNotations.
 Open Scope Z_scope.
 
@@ -286,6 +286,55 @@ Theorem C05_enforce_diag : forall V rot atol (im : img V) r,
 Proof. exact @enforce_diag_spec. Qed.
 Print Assumptions C05_enforce_diag.
 
+(* ---------------------------------------------------------------------------- one indexing function *)
+
+(* C05's index-level specification of NumPy basic indexing (src_index) and C06's list-level one
+   (offs / np_index_F, the yardstick of C06_fileslice_eq_numpy) are the same function: for every
+   valid canonical index — ints, slices, None; Ellipsis is already expanded in canonical form —
+   and every shape and stride, the offsets C06 selects, in C06's order, are the offsets of the
+   source indices src_index gives to the output indices enumerated first-axis-fastest (ndindexF,
+   which lists exactly the index box of the output shape); same output shape np_shape on both sides *)
+Theorem C05_src_index_is_np_index :
+  (forall c shape strd, ix_valid shape c ->
+     offs shape c strd = map (fun k => ravs shape (src_index shape c k) strd) (ndindexF (np_shape shape c)))
+  /\ (forall shape k, In k (ndindexF shape) <-> in_box shape k)
+  /\ (forall shape, Forall (fun n => 0 <= n) shape -> zlen (ndindexF shape) = prod shape).
+Proof. exact (conj offs_is_src_index (conj ndindexF_in_box ndindexF_length)). Qed.
+Print Assumptions C05_src_index_is_np_index.
+
+Theorem C05_np_index_is_src_index : forall A (d : A) shape c elems, ix_valid shape c ->
+  np_index_F d shape c elems
+  = (np_shape shape c,
+     map (fun k => nth (Z.to_nat (ravs shape (src_index shape c k) 1)) elems d) (ndindexF (np_shape shape c))).
+Proof. exact @np_index_F_is_src_index. Qed.
+Print Assumptions C05_np_index_is_src_index.
+
+(* composed with C06_fileslice_eq_numpy: for an F-ordered array stored in a file (a NIfTI data
+   block; file_arr), fileslice with any admissible heuristic returns exactly the model's sliced
+   array (np_getitem): same shape, and at output index k the stored item of source voxel src_index k *)
+Theorem C05_fileslice_is_model_slice : forall h file ix shape w off c d, h_ok h -> 0 < w -> 0 <= off ->
+  canonical_slicers true ix shape = Ok c -> ix_valid shape c ->
+  off + w * prod shape <= zlen file ->
+  np_getitem c (file_arr file shape w off) = Ok5 d ->
+  fileslice_h h file ix shape w off OrdF
+  = Ok (a_shape d, flat_map (a_get d) (ndindexF (a_shape d))).
+Proof. exact fileslice_is_np_getitem. Qed.
+Print Assumptions C05_fileslice_is_model_slice.
+
+(* img.slicer[ix] on a FILE-backed image: the bytes fileslice returns for the (canonical) index
+   the slicer passes to dataobj[...] are the data of the model's result image im' — the image of
+   which C05_slicer_voxel_world / C05_compose_voxel_world say that every voxel keeps value and
+   world position *)
+Theorem C05_slicer_file_backed : forall h file shape w off A dim ix (im' : img (list Z)),
+  h_ok h -> 0 < w -> 0 <= off -> off + w * prod shape <= zlen file ->
+  slicer_getitem (mkImg (file_arr file shape w off) A dim) ix = Ok5 im' ->
+  exists c, check_slicing ix shape = Ok5 c /\
+   (ix_valid shape c ->
+    fileslice_h h file (map cidx_to_idx c) shape w off OrdF
+    = Ok (a_shape (i_data im'), flat_map (a_get (i_data im')) (ndindexF (a_shape (i_data im'))))).
+Proof. exact slicer_file_backed. Qed.
+Print Assumptions C05_slicer_file_backed.
+
 (* ---------------------------------------------------------------------------- non-vacuity *)
 
 (* slicer: a 4-D image, reversed / strided / out-of-range spatial slices, Ellipsis and an int on
@@ -326,4 +375,18 @@ Proof.
   split; [exact lin3_equivariant|].
   split; [split; [reflexivity|repeat constructor]|]. split; [split; [reflexivity|repeat constructor]|].
   split; [vm_compute; tauto|]. split; vm_compute; reflexivity.
+Qed.
+
+(* the bridge on a concrete file: 2x3x2 one-byte items after a 3-byte header, reversed / strided slicing *)
+Example C05_bridge_nonvacuous :
+  let file := map Z.of_nat (seq 100 15) in
+  let ix := [ISl (mkSl None None (Some (-1))); ISl (mkSl (Some 1) None None); IEll] in
+  exists c, check_slicing ix [2; 3; 2] = Ok5 c /\ ix_validb [2; 3; 2] c = true
+    /\ 3 + 1 * prod [2; 3; 2] <= zlen file
+    /\ fileslice_h (threshold_heuristic 256) file (map cidx_to_idx c) [2; 3; 2] 1 3 OrdF
+       = Ok ([2; 2; 2], [106; 105; 108; 107; 112; 111; 114; 113])
+    /\ map (fun k => ravs [2; 3; 2] (src_index [2; 3; 2] c k) 1) (ndindexF [2; 2; 2]) = [3; 2; 5; 4; 9; 8; 11; 10].
+Proof.
+  eexists. split; [vm_compute; reflexivity|]. split; [vm_compute; reflexivity|].
+  split; [vm_compute; discriminate|]. split; vm_compute; reflexivity.
 Qed.
